@@ -324,6 +324,7 @@ macro_rules! collect_harness {
     };
 }
 // S = Sync + response TLV, F = Follow_Up, R = Sync + request TLV
+collect_harness!(c44_collect_s, 1, [0], 4); // a single answer: one-step measurement, or waiting
 collect_harness!(c44_collect, 2, [0, 1], 5); // S F
 collect_harness!(c44_collect_fs, 2, [1, 0], 5); // F S
 collect_harness!(c44_collect_ssf, 3, [0, 0, 1], 6); // duplicate Sync, then Follow_Up
